@@ -284,6 +284,30 @@ theorem p2pkh_inscription_signature_accepted (H : Crypto) (flags : Nat) (c : Ctx
   inscription_spend_accepted H flags c fullSig pk h lock digest mid hflags hfork hbit hs hp hh hparse hsize hnp hmid hops
     hkey hht hse hpe hdig hpk hver
 
+/-- **… and the script Tx.Inscribe builds is of that kind, for every content type and payload**: no hypothesis about the
+    parser is left.  `lock` is the locking script `Tx.Inscribe` makes from the P2PKH template for `h` (model
+    `Ord.inscriptionScript`, tied to inscriptions.go by the C20 correspondence); the only size conditions are the era's
+    own limits on elements and scripts. -/
+theorem inscribed_p2pkh_signature_accepted (H : Crypto) (flags : Nat) (c : Ctx) (fullSig pk h ct data lock digest : Bytes)
+    (hl : Ord.inscriptionScript (lockBytes h) ct data = some lock)
+    (hflags : hasFlag (mkEnv H flags (some c)).flags fCleanStack = true → hasFlag (mkEnv H flags (some c)).flags fBip16 = true)
+    (hfork : hasFlag (mkEnv H flags (some c)).flags Interp.fForkID = true)
+    (hbit : (fullSig.getLast?.getD 0).toNat &&& 0x40 = 0x40)
+    (hs : 2 ≤ fullSig.length ∧ fullSig.length ≤ 75) (hp : 2 ≤ pk.length ∧ pk.length ≤ 75) (hh : h.length = 20)
+    (hct : ct.length ≤ (mkEnv H flags (some c)).cfg.maxElem) (hdata : data.length ≤ (mkEnv H flags (some c)).cfg.maxElem)
+    (hsize : lock.length ≤ (mkEnv H flags (some c)).cfg.maxScriptSize)
+    (hkey : H.ripemd160 (H.sha256 pk) = h)
+    (hht : checkHashTypeEncoding (mkEnv H flags (some c)) (fullSig.getLast?.getD 0).toNat = none)
+    (hse : checkSignatureEncoding (mkEnv H flags (some c)) fullSig.dropLast = none)
+    (hpe : checkPubKeyEncoding (mkEnv H flags (some c)) pk = none)
+    (hdig : sigDigest (mkEnv H flags (some c)) c lock (fullSig.getLast?.getD 0).toNat = some digest)
+    (hpk : H.pubKeyOk pk = true)
+    (hver : H.verify (hasFlag (mkEnv H flags (some c)).flags fStrictEnc || hasFlag (mkEnv H flags (some c)).flags fDERSig)
+              fullSig.dropLast digest pk = some true) :
+    (execute H flags (some c) (unlockBytes fullSig pk) lock).1 = .accept :=
+  inscribed_output_spend_accepted H flags c fullSig pk h ct data lock digest hl hflags hfork hbit hs hp hh hct hdata hsize
+    hkey hht hse hpe hdig hpk hver
+
 /-- non-vacuity for the inscription theorem: the P2PKH template followed by `OP_0 OP_IF "ord" OP_1 "a/b" OP_0 <2 bytes> OP_ENDIF`
     parses as `lockOps h ++ envelope mid`, a DER-shaped FORKID signature and a compressed key pass the encoding rules under
     the FORKID flag, and the model accepts -/
